@@ -7,42 +7,12 @@ import os
 import pickle
 import threading
 
-from vlib.chglue import PART_K, PART_N, TIER, THOROUGH, in_part, reset_defaults, concrete
+from vlib.chglue import PART_K, PART_N, TIER, THOROUGH, in_part, reset_defaults, concrete, forked as _forked
 from harness.c02 import bsearch
 from harness import corpus as K
 
 NC = K.NCALLS
 _ALONE = {}
-
-
-def _forked(thunk):
-    """run thunk() in a forked child and return its (picklable) result.  Every schedule runs in a child of its own, so that what one
-    schedule leaves behind in the process (module-level tables, caches, defaults) can neither leak into the next path explored in
-    this worker nor into the 'alone' signatures: the parent never executes a corpus call."""
-    r, w = os.pipe()
-    pid = os.fork()
-    if pid == 0:
-        code = 0
-        try:
-            os.close(r)
-            try:
-                data = pickle.dumps(('ok', thunk()))
-            except BaseException as e:      # noqa - the child must never return into the caller's frames
-                data = pickle.dumps(('err', '%s: %s' % (type(e).__name__, e)))
-            with os.fdopen(w, 'wb') as f:
-                f.write(data)
-        except BaseException:               # noqa
-            code = 3
-        finally:
-            os._exit(code)
-    os.close(w)
-    with os.fdopen(r, 'rb') as f:
-        data = f.read()
-    os.waitpid(pid, 0)
-    kind, val = pickle.loads(data)
-    if kind == 'err':
-        raise RuntimeError('forked schedule failed: %s' % val)
-    return val
 
 
 def alone(i):
